@@ -6,21 +6,21 @@ CONSTANTS
   LabelSets <- LS2
   AssignSets <- AS2
   Titles = {0, 1, 9}
-  Bodies = {0, 1}
+  Bodies = {0}
   VerdictVals = {0, 1, 2}
   SummaryVals = {0, 1}
   Commit <- C2
   Anc <- Anc2
   Kinds <- ReviewKinds
   FanKinds <- ReviewKinds
-  Creators = {2, 4}
+  Creators = {2}
   MaxC = 2
   MaxE = 2
   MaxR = 2
   MaxRC = 0
-  MaxV = 2
-  MaxVC = 2
-  Reactors = {4}
+  MaxV = 1
+  MaxVC = 1
+  Reactors = {}
   HeadInits <- H0
   Pushers = {}
   Variant = "code"
